@@ -42,6 +42,27 @@ def sh(cmd, **kw):
     return r.stdout
 
 
+def prune(pattern, keep):
+    """drop cached artefacts of the same name that nobody has used for 3 hours (several checks, or checks of
+    different trees, may be building at the same time: never remove what another build may be about to link)"""
+    import time
+    now = time.time()
+    for old in glob.glob(pattern):
+        try:
+            if old != keep and ".tmp" not in old and now - os.stat(old).st_mtime > 3 * 3600:
+                os.unlink(old)
+        except OSError:
+            pass
+
+
+def touch(path):
+    try:
+        os.utime(path, None)
+    except OSError:
+        pass
+    return path
+
+
 def gen_headers():
     """Return include dirs providing config.h and iv.h (generated files)."""
     cfg = os.path.join(REPO, "config.h")
@@ -50,9 +71,14 @@ def gen_headers():
         return [REPO, os.path.join(REPO, "src/include")]
     conf = os.path.join(BUILD, "conf")
     if not (os.path.exists(os.path.join(conf, "config.h")) and os.path.exists(os.path.join(conf, "src/include/iv.h"))):
-        shutil.rmtree(conf, ignore_errors=True)
-        os.makedirs(conf)
-        sh("%s/configure -q" % REPO, cwd=conf)
+        tmp = "%s.tmp%d" % (conf, os.getpid())
+        shutil.rmtree(tmp, ignore_errors=True)
+        os.makedirs(tmp)
+        sh("%s/configure -q" % REPO, cwd=tmp)
+        try:
+            os.rename(tmp, conf)        # atomic; loses against a concurrent builder that got there first
+        except OSError:
+            shutil.rmtree(tmp, ignore_errors=True)
     return [conf, os.path.join(conf, "src/include"), REPO, os.path.join(REPO, "src/include")]
 
 
@@ -75,9 +101,10 @@ def build_lib(variant, wrap=True):
     odir = os.path.join(BUILD, variant, "lib" if wrap else "lib_nowrap")
     os.makedirs(odir, exist_ok=True)
     symmap = os.path.join(odir, "redefine.map")
-    with open(symmap, "w") as f:
+    with open("%s.%d" % (symmap, os.getpid()), "w") as f:
         for s in WRAP_SYMS:
             f.write("%s ivw_%s\n" % (s, s))
+    os.rename("%s.%d" % (symmap, os.getpid()), symmap)
     flags = "-D_GNU_SOURCE -DHAVE_CONFIG_H -D%s %s %s -Wno-unused-result" % (GUARD, incflags, v["cflags"])
     hh = file_hash(hdrs, flags + str(wrap) + " ".join(WRAP_SYMS))
 
@@ -86,14 +113,13 @@ def build_lib(variant, wrap=True):
         key = file_hash([src], hh)
         obj = os.path.join(odir, "%s.%s.o" % (name, key))
         if not os.path.exists(obj):
-            for old in glob.glob(os.path.join(odir, name + ".*.o")):
-                os.unlink(old)
-            tmp = obj + ".tmp.o"
+            prune(os.path.join(odir, name + ".*.o"), obj)
+            tmp = "%s.tmp%d.o" % (obj, os.getpid())
             sh("%s %s -c %s -o %s" % (v["cc"], flags, src, tmp))
             if wrap:
                 sh("objcopy --redefine-syms=%s %s" % (symmap, tmp))
             os.rename(tmp, obj)
-        return obj
+        return touch(obj)
 
     with ThreadPoolExecutor(16) as ex:
         return list(ex.map(one, LIB_SRCS))
@@ -114,11 +140,11 @@ def cc_obj(variant, src, extra_flags="", sanitize=True, tag=""):
     base = os.path.basename(src)[:-2] + tag
     obj = os.path.join(odir, "%s.%s.o" % (base, key))
     if not os.path.exists(obj):
-        for old in glob.glob(os.path.join(odir, base + ".*.o")):
-            os.unlink(old)
-        sh("%s %s -c %s -o %s.tmp.o" % (cc, flags, src, obj))
-        os.rename(obj + ".tmp.o", obj)
-    return obj
+        prune(os.path.join(odir, base + ".*.o"), obj)
+        tmp = "%s.tmp%d.o" % (obj, os.getpid())
+        sh("%s %s -c %s -o %s" % (cc, flags, src, tmp))
+        os.rename(tmp, obj)
+    return touch(obj)
 
 
 def link(variant, name, objs, libs="-lpthread"):
@@ -128,11 +154,11 @@ def link(variant, name, objs, libs="-lpthread"):
     key = file_hash(objs, v["ldflags"] + libs)
     exe = os.path.join(bdir, "%s.%s" % (name, key))
     if not os.path.exists(exe):
-        for old in glob.glob(os.path.join(bdir, name + ".*")):
-            os.unlink(old)
-        sh("%s %s -o %s.tmp %s %s" % (v["cc"], v["ldflags"], exe, " ".join(objs), libs))
-        os.rename(exe + ".tmp", exe)
-    return exe
+        prune(os.path.join(bdir, name + ".*"), exe)
+        tmp = "%s.tmp%d" % (exe, os.getpid())
+        sh("%s %s -o %s %s %s" % (v["cc"], v["ldflags"], tmp, " ".join(objs), libs))
+        os.rename(tmp, exe)
+    return touch(exe)
 
 
 def build_harness(name, variant="asan", with_env=True, with_sched=False, extra_flags=""):
